@@ -19,6 +19,20 @@ AlphaThorough == AlphaQuick \o <<
   U(4, 5, "ok", "fail", "none", 15)
 >>
 
+(* competitors of which the earlier one is no valid candidate because it commits back to a commitment that its chain *)
+(* has already consumed: the scan must go on to the later, valid one (update chain 4 -> 5 -> {4 | 6}; recovery chain *)
+(* 1 -> 2 -> {1 | 3})                                                                                                *)
+AlphaReuse == <<
+  C(1, 4, "ok", 10),
+  U(4, 5, "ok", "ok", "none", 11),
+  U(5, 4, "ok", "ok", "none", 12),
+  U(5, 6, "ok", "ok", "none", 13),
+  R(1, 2, 5, "ok", "ok", "none", 30),
+  R(2, 1, 6, "ok", "ok", "none", 31),
+  R(2, 3, 6, "ok", "ok", "none", 32)
+>>
+CoordsReuse == {<<1, 2>>, <<2, 1>>, <<2, 2>>, <<3, 0>>}
+
 CoordsQuick    == {<<1, 2>>, <<2, 1>>, <<2, 2>>, <<3, 0>>}
 CoordsThorough == {<<1, 1>>, <<1, 2>>, <<2, 0>>, <<2, 1>>, <<3, 0>>}
 
